@@ -266,10 +266,23 @@ impl Monitor for FsMon {
                         self.pending_b.insert(*dst, 512);
                     }
                 } else if let Some(u) = self.ups.get_mut(t) {
+                    let mut settle = None;
                     if let Some(Pkt::Ack(n)) = rfc::decode(data) {
                         u.last_ack = Some(n);
-                        if u.final_received && n == u.inorder as u16 {
+                        if u.final_received && n == u.inorder as u16 && !u.completed {
                             u.completed = true;
+                            // completed is completed: from the acknowledgement of the final block on, the file
+                            // of the most recently accepted upload holds its content, whatever that worker or
+                            // an older one does afterwards
+                            if !u.cleanup_seen && self.order.get(&u.path).and_then(|o| o.last().copied()) == Some(*t) {
+                                settle = Some((u.path.clone(), u.client));
+                            }
+                        }
+                    }
+                    if let Some((path, client)) = settle {
+                        if let Some(c) = self.content_of(client, &path) {
+                            self.settled.insert(path, (*t, c));
+                            bump(&mut self.probes, "latest_accepted_upload_completed");
                         }
                     }
                 }
@@ -309,21 +322,8 @@ impl Monitor for FsMon {
                 }
             }
             Ev::End { task, .. } => {
-                let mut settle = None;
                 if let Some(u) = self.ups.get_mut(task) {
                     u.ended = true;
-                    if u.completed && !u.cleanup_seen {
-                        let last = self.order.get(&u.path).and_then(|o| o.last().copied());
-                        if last == Some(*task) {
-                            settle = Some((u.path.clone(), u.client));
-                        }
-                    }
-                }
-                if let Some((path, client)) = settle {
-                    if let Some(c) = self.content_of(client, &path) {
-                        self.settled.insert(path, (*task, c));
-                        bump(&mut self.probes, "latest_accepted_upload_completed");
-                    }
                 }
                 // the ending task may just have cleaned up: settled files must be intact
                 if let Some(u) = self.ups.get(task) {
